@@ -179,7 +179,7 @@ func runC18(c *Ctx) {
 		"(insert-guards) the insertion of a loaded lease into the table is dominated by State == Allocated, a valid address inside the home subnet and a non-empty client id. (reset) Config.New keeps the loaded tables only on the branch where err == nil, both subnets and the table are non-nil and the configuration is unchanged. " +
 		"(persist) handleRequest passes saveConfig on the path that acknowledges; saveConfig writes only allocated leases. Trusted: yaml.Unmarshal itself does not panic. Not decided: which bindings a truncated file yields."
 	r.Rule("nil-deref", "dereferences of pointers whose nil-ness depends on the lease file are proved non-nil", 4)
-	r.Rule("insert-guards", "a loaded lease enters the table only when allocated, inside the home subnet and with a client id; net2 only for captured MACs", 5)
+	r.Rule("insert-guards", "a loaded lease enters the table only when allocated, inside the home subnet and with a client id; net2 only for captured MACs", 6)
 	r.Rule("reset", "New falls back to fresh tables unless the loaded state is complete and matches the configuration", 1)
 	r.Rule("persist", "acknowledged leases are saved; only allocated leases are written; the file is replaced whole", 3)
 
@@ -309,6 +309,24 @@ func runC18(c *Ctx) {
 				{"the MAC is captured", `^\(packet\.Session\)\.IsCaptured\(recv\.session,local\(v\)\.Addr\.MAC\)$`},
 				{"the address is inside net2", `^\(net/netip\.Prefix\)\.Contains\(.*SubnetConfig\.LAN,local\(v\)\.Addr\.IP\)$`},
 			})
+			// ... inside *that* subnet: the prefix tested is the LAN of the very subnet value being attached (both loaded
+			// subnets print alike, so the test is on SSA identity)
+			same := false
+			for _, g := range gs {
+				call, ok := g.Cond.(*ssa.Call)
+				if !ok || !g.Pol || !strings.HasSuffix(core.CalleeName(call), "Prefix).Contains") || len(call.Call.Args) != 2 {
+					continue
+				}
+				if subnetOfPrefix(call.Call.Args[0]) == st.Val {
+					same = true
+				}
+			}
+			sst := core.Proved
+			if !same {
+				sst = core.Violated
+			}
+			r.Add(core.Obligation{Rule: "insert-guards", Key: "insert-guards loadByteArray subnet = net2 requires the address inside the subnet being attached", Func: core.FuncName(fn), Pos: c.P.Pos(core.PosOf(i)), Status: sst,
+				Basis: "a dominating Contains test on the LAN of the same subnet value", Detail: "the lease is attached to a subnet whose prefix was not tested against the lease's address (the Contains test that dominates the store is on another subnet): a captured client's home-LAN lease is served with the netfilter subnet's mask and router"})
 		})
 	}
 
@@ -486,4 +504,21 @@ func sortedKeys(m map[string]bool) []string {
 	}
 	sort.Strings(out)
 	return out
+}
+
+
+// subnetOfPrefix: v is X.SubnetConfig.LAN (loaded); returns X.
+func subnetOfPrefix(v ssa.Value) ssa.Value {
+	ld, ok := v.(*ssa.UnOp)
+	if !ok {
+		return nil
+	}
+	fa, ok := ld.X.(*ssa.FieldAddr)
+	if !ok || !strings.HasSuffix(fieldOwner(fa), ".LAN") {
+		return nil
+	}
+	if inner, ok := fa.X.(*ssa.FieldAddr); ok {
+		return inner.X
+	}
+	return fa.X
 }
